@@ -34,7 +34,7 @@ GAttrs == ("range" :> <<"range", "range_unit">>) @@ ("rset" :> <<"range", "range
 Alpha == ("range" :> {"bytes", "items", "=", "-", ",", SP, "x", "0", "1", "8"}) @@
          ("rset"  :> {"0", "1", "8", "-", ",", SP, "x"}) @@
          ("clen"  :> {"0", "1", "8", "-", "+", SP, ",", "x", "_"}) @@
-         ("etag"  :> ETagTokens) @@
+         ("etag"  :> {"\"a\"", "\"b,c\"", "\"\"", "\"caf\\u{e9}-1\"", "W/", "w/", "*", ",", SP, "x", "\""}) @@
          ("fwd"   :> {"for=192.0.2.43", "For=\"[2001:db8::1]:4711\"", "for=\"_gazonk\"", "for=127.0.0.1", "for=\"198.51.100.17:_p0\"",
                       "BY=\"_a\\_b\"", "Host=\"h.example.org:8443\"", "PROTO=HTTPS", "proto=http", "ext=1",
                       ";", ",", SP, "@", "for"}) @@
